@@ -18,12 +18,12 @@ def run(tier):
         conds.append(Cond("h_fuzz.py", "derivation", to, twin="reach" if spec in ("list", "nested", "rec") else None, path_timeout=to / 2,
                           env={"H_SPEC": spec, "H_BUDGETS": "0,2,5,12" if q else "0,1,2,3,5,8,12,30", "H_CHOICES": "8" if q else "14",
                                "H_RSIZE": "7"}))
-    plan = [("rep2", "repair2", 8), ("rep1", "repair2", 9), ("eq", "repair2", 8), ("range", "repair2", 8),
+    plan = [("rep2", "repair2", 8), ("rep3", "repair2", 8), ("rep1", "repair2", 9), ("eq", "repair2", 8), ("range", "repair2", 8),
             ("eq", "mutate", 8)]
     if not q:
         # sized on this machine: rep2/mutate with 12 draws = 9195 paths, 33 min; crossover with 10-11 draws did not finish in 30 min
         plan += [("rep1", "mutate", 10), ("rep1", "crossover", 9), ("eq", "crossover", 8), ("rep2", "crossover", 8), ("rep2", "mutate", 12), ("range", "crossover", 8), ("range", "mutate", 10)]
-    first_draws = {"rep2": 4, "rep1": 3, "range": 2}  # number of values of the first draw (the count symbol's alternatives)
+    first_draws = {"rep2": 4, "rep3": 4, "rep1": 3, "range": 2}  # number of values of the first draw (the count symbol's alternatives)
     for spec, mode, nch in plan:
         for c0 in range(first_draws.get(spec, 1)) if spec in first_draws else [-1]:
             conds.append(Cond("h_repair.py", "stays_in_grammar", to, twin="reach" if (mode == "repair2" and c0 in (-1, 1)) else None, path_timeout=to / 2,
@@ -43,7 +43,7 @@ def run(tier):
     run.bounds = {"node units": "Alternative (<= 3 stub alternatives), Concatenation (<= 3), Repetition/Star (+ Plus/Option thorough) with min,max <= 3, "
                   "override start <= 2, override iterations <= 3, NonTerminalNode; stub distances {0,1,3,inf}; budgets {0,1,2,5,100}; <= 3 draws",
                   "plain generation": "6 grammars of the family; every random draw symbolic (<= 8 / 14 draws); node budgets {0,2,5,12} / {0,1,2,3,5,8,12,30}; MAX_REPETITIONS = 2",
-                  "repair/operators": "4 specs (computed repetition over a 2-symbol group, computed repetition + equality constraint, equality constraint, "
+                  "repair/operators": "5 specs (computed repetition over a 2-symbol group, over a group with inner and trailing terminals, computed repetition + equality constraint, equality constraint, "
                                       "computed range); pipeline fuzz -> evaluate -> repair -> evaluate -> repair | crossover | mutation with every draw symbolic; MAX_REPETITIONS = 3"}
     run.outside = ["regex terminals (instances come from the third-party exrex generator)", "generators (C16)", "Gmutator settings other than the default 0.0",
                    "the unmechanised induction from per-run checks to all population histories", "whole evolutionary runs"]
